@@ -14,7 +14,7 @@ import (
 func init() { register("C01", checkC01) }
 
 func checkC01(c *an.Ctx) {
-	c.Rule("C01.1", "gate table (E2): per dependency, rows Done/Skipped/(Error∧allow_failure) may keep the gate's result, every other status row must make it false; the result is never set to true inside the loop; the gate ranges over the dependencies of the stage that is launched")
+	c.Rule("C01.1", "gate table (E2): per dependency, rows Done/Skipped/(Error∧allow_failure) may keep the gate's result, every other status row must make it false; the result is never set to true inside the loop; the gate ranges over the dependencies of the stage that is launched — all of them, on every call (the loop starts at the first element and is stepped by one)")
 	c.Rule("C01.2", "launch guard (E3): the launch is dominated by status==Waiting and by the gate returning true, all on the stage handed to the goroutine at go time (no captured loop variable)")
 	c.Rule("C01.3", "publish after run (E3): in the stage goroutine every Done/Error write is dominated by the synchronous call that reaches Runner.Run; no go edge between the goroutine and Runner.Run / nested Schedule")
 	c.Rule("C01.4", "atomic status (E4): Stage.Status is written only by atomic.StoreInt32 in UpdateStatus and read in pkg/scheduler only by atomic.LoadInt32")
@@ -356,6 +356,11 @@ func gateTable(c *an.Ctx, s *sched, rule string, cancelColumn bool) {
 			c.OK(rule, key, g.Pos(), "writes %v", r.writes)
 		}
 	}
+	// every dependency is looked at on every call: a loop that resumes at a remembered position ("the first k
+	// were satisfied last time") skips the ones before it, whatever their status is by now
+	c.Check(s.gateLoop.VisitsEveryElement(), rule, an.Short(g)+":all-dependencies", g.Pos(),
+		"the gate's loop goes over all dependencies on every call",
+		"the gate's loop does not start at the first dependency (or is not stepped by one): dependencies it skips are never looked at, so a stage can be let through while one of them is still running or has failed")
 	if cancelColumn {
 		return
 	}
